@@ -1,6 +1,8 @@
 import SpVerif.Lemmas.Hilbert2Curve
 import SpVerif.Lemmas.HilbertN
 import SpVerif.Lemmas.HilbertLink
+import SpVerif.Lemmas.HilbertOrigin
+import SpVerif.Lemmas.HilbertLast
 /-!
 # C07 — the Hilbert curve mapping is a locality-preserving bijection
 
@@ -57,6 +59,17 @@ theorem C07_adjacent (p h : Nat) (hh : h + 1 < 4 ^ p) :
 /-- the curve starts at `(0,0)` and ends at `(2^p - 1, 0)` -/
 theorem C07_endpoints (p : Nat) : coord2 p 0 = (0, 0) ∧ coord2 p (4 ^ p - 1) = (2 ^ p - 1, 0) :=
   ⟨coord2_first p, coord2_last p⟩
+
+/-- **the curve starts at the origin in every dimension**: distance 0 is the cell `(0, …, 0)`, for every `n` and `p` (and, by the round
+trip, the origin has distance 0) -/
+theorem C07_first_point_all_n (p n : Nat) : coordN p n 0 = List.replicate n 0 :=
+  coordN_zero p n
+
+/-- **end points in every dimension**: the last distance `2^(n·p) − 1` is the cell `(2^p − 1, 0, …, 0)` - the curve runs from the origin to the
+far end of the first axis, for every `n ≥ 1` and `p ≥ 1` -/
+theorem C07_endpoints_all_n (p n : Nat) (hp : 1 ≤ p) (hn : 1 ≤ n) :
+    coordN p n 0 = List.replicate n 0 ∧ coordN p n (2 ^ (n * p) - 1) = (2 ^ p - 1) :: List.replicate (n - 1) 0 :=
+  ⟨coordN_zero p n, coordN_last p n hp hn⟩
 
 /-- successive orders refine each other: dropping the last two bits of the order-`p+1`
 distance of a cell gives the order-`p` distance of its parent cell -/
